@@ -307,9 +307,10 @@ fn check(tier: &str) -> i32 {
 
     // determinism first: a mismatch is a harness error, never a verdict
     let (st_n, st_mis) = selftest(seed, b.selftest, pool.clone(), threads);
-    if !st_mis.is_empty() {
-        let _ = std::fs::remove_dir_all(scratch_base());
-        simcommon::harness_error(&format!("determinism self-test failed for runs {:?}", &st_mis[..st_mis.len().min(5)]));
+    // never a verdict by itself; violations below are each confirmed by re-execution
+    let nondeterministic = !st_mis.is_empty();
+    if nondeterministic {
+        eprintln!("[c19] determinism self-test: {} of {} runs differ between two executions, e.g. {:?}", st_mis.len(), st_n, &st_mis[..st_mis.len().min(5)]);
     }
 
     let mut all: Vec<Record> = vec![];
@@ -424,7 +425,7 @@ fn check(tier: &str) -> i32 {
     ev.cov("io_calls_observed", json!(calls_total));
     ev.cov("runs_per_hour", json!((evaluations as f64 / wall * 3600.0) as u64));
     ev.cov("simulated_time", json!("none: the CLI reads no clock; progress is counted in I/O calls (io_calls_observed)"));
-    ev.cov("determinism_selftest", json!({"runs_executed_twice": st_n, "mismatches": 0, "worker_counts": [threads, 3.min(threads)]}));
+    ev.cov("determinism_selftest", json!({"runs_executed_twice": st_n, "mismatches": st_mis.len(), "worker_counts": [threads, 3.min(threads)]}));
     ev.cov("real_vs_stub", json!({"real": ["svgbob_cli binary built from /repo (main.rs unmodified)", "clap", "std I/O layers", "svgbob library", "kernel file system (tmpfs) for un-faulted calls"], "stub": ["results of faulted libc calls", "directory listing order (sorted, then seeded shuffle)", "getrandom (seeded)"]}));
     ev.cov("known_findings_hit", json!(known_hits));
     ev.cov("violations_sample", json!(vio_samples));
@@ -447,6 +448,8 @@ fn check(tier: &str) -> i32 {
     eprintln!("[c19] {} runs, {} distinct non-trivial, {} new violation signatures, {:.1}s", evaluations, distinct.len(), new_violations, wall);
     if new_violations > 0 {
         1
+    } else if nondeterministic {
+        simcommon::harness_error(&format!("determinism self-test failed for runs {:?} and no violation was confirmed", &st_mis[..st_mis.len().min(5)]))
     } else if unconfirmed > 0 {
         simcommon::harness_error("a violation did not reproduce on re-execution (non-determinism in the harness)")
     } else {
